@@ -227,7 +227,8 @@ BOUNDS = {
     'quick': 'left x right <= 2x2 data rows (row counts symbolic in [0,2]); keys: unbounded int, None|int, '
              'None|int|str; compound keys (None|int in [0,2)) up to 2x1; ragged rows (short/long) 2x1 and 1x2; key '
              'spellings key= / lkey=,rkey= / natural; prefixes; missing in {None, marker}; buffersize {None,1}; '
-             'crossjoin 2x2 and 1x2x1 with ragged rows',
+             'cross-type representative keys (2x1, 1x2); a prefix on one side only; key field at another column position on the right '
+             '(antijoin); crossjoin 2x2 and 1x2x1 with ragged rows and a missing marker',
     'thorough': 'as quick with 3x3 (int keys), 3x2 / 2x3 (None|int, mixed), compound 2x2, ragged 2x2',
 }
 OUTSIDE = 'more rows than the bound; keys of other types (their ordering is C04); presorted=True (C11)'
